@@ -351,6 +351,7 @@ func init() {
 		}
 		checkStable(c, "C02", "encode", first)
 		gomaxprocsSweep(c, "C02", "encode")
+		firstCallsCheck(c, "C02")
 		c.res.sample(map[string]interface{}{"encoder": "srgb.To16Bit", "x": 0.5, "result": spaces[0].to16(0.5)})
 		c.res.sample(map[string]interface{}{"encoder": "adobergb.To8Bit", "x_bits": "0x7fc00000 (NaN)", "result": spaces[1].to8(float32(math.NaN()))})
 		c.res.sample(map[string]interface{}{"encoder": "prophotorgb.To16Bit", "x": "+Inf", "result": spaces[2].to16(float32(math.Inf(1)))})
